@@ -153,6 +153,13 @@ def main():
     filt = sys.argv[1:]
     rows = []
     assert sh("git -C %s status --short" % REPO).stdout.strip() == "", "/repo is dirty"
+    # the checks rewrite evidence/<id>.json on every run: what they write while /repo holds a mutant is not
+    # evidence about /repo - keep the files of the last run on the real tree and put them back afterwards
+    import shutil
+    import tempfile
+    evdir = os.path.join(ROOT, "evidence")
+    keep = tempfile.mkdtemp(prefix="selftest-evidence-", dir=os.path.join(ROOT, ".work"))
+    shutil.copytree(evdir, os.path.join(keep, "evidence"))
     try:
         muts = []
         for h, subj in fix_commits():
@@ -195,6 +202,9 @@ def main():
             print(rows[-1][:4], "%.0fs" % (time.time() - t0), flush=True)
     finally:
         restore()
+        shutil.rmtree(evdir, ignore_errors=True)
+        shutil.copytree(os.path.join(keep, "evidence"), evdir)
+        shutil.rmtree(keep, ignore_errors=True)
     out = os.path.join(ROOT, "selftest", "RESULTS.md" if not filt else "RESULTS.partial.md")
     with open(out, "w") as f:
         f.write("# Mutant sensitivity results (selftest/run.py, quick tier, VERIF_SEED default)\n\n")
